@@ -181,6 +181,68 @@ def digest(b):
             f'ite={{{ite}}} vars={{{vars_}}} l2v={{{l2v}}} ll={ll} ctx={ctx}')
 
 
+class Raw(str):
+    """a value already rendered in canonical text"""
+
+
+def _graph_value(nodes, edges, refs, labels):
+    def srt(items):
+        return sorted(set(items))
+    n = srt(f'[{u},{l}]' for u, l in nodes)
+    e = srt(f'[{u},{v},{"T" if a else "F"},{"T" if c else "F"}]' for u, v, a, c in edges)
+    r = srt(str(u) for u in refs)
+    lb = srt(f'[{u},{"()" if v is None else v}]' for u, v in labels)
+    return Raw('[[' + ','.join(n) + '],[' + ','.join(e) + '],[' + ','.join(r) + '],[' + ','.join(lb) + ']]')
+
+
+def parse_dot(text):
+    """DOT text written by dd._utils.DotGraph -> abstract graph value.
+    Legend (doc.md): solid = then, dashed = else, taillabel -1 = complement,
+    nodes labelled `<var>-<id>`, layer nodes "L<level>", references "ref<u>"."""
+    import re
+    nodes, edges, refs, labels = [], [], [], []
+    layer = None
+    level_of = {}
+    node_re = re.compile(r'^\s*("?[\w@.-]+"?) \[(.*)\];\s*$')
+    edge_re = re.compile(r'^\s*("?[\w@.-]+"?) -> ("?[\w@.-]+"?) \[(.*)\];\s*$')
+    cur_layer = None
+    for line in text.split('\n'):
+        m = edge_re.match(line)
+        if m:
+            u, v, attr = m.groups()
+            at = dict(re.findall(r'(\w+)="([^"]*)"', attr))
+            if at.get('style') == 'invis':
+                continue
+            if u.startswith('"ref'):
+                r = int(u.strip('"')[3:])
+                if (at.get('taillabel') == '-1') != (r < 0) or int(v) != abs(r) or at.get('style') != 'dashed':
+                    raise AssertionError(f'reference edge {line}')
+                refs.append(r)
+                continue
+            solid = at.get('style') == 'solid'
+            if not solid and at.get('style') != 'dashed':
+                raise AssertionError(line)
+            edges.append((int(u), int(v), solid, at.get('taillabel') == '-1'))
+            continue
+        m = node_re.match(line)
+        if m:
+            u, attr = m.groups()
+            at = dict(re.findall(r'(\w+)="([^"]*)"', attr))
+            if u.startswith('"L'):
+                cur_layer = int(u.strip('"')[1:])
+                continue
+            if u.startswith('"ref'):
+                if cur_layer != -1:
+                    raise AssertionError(f'reference node outside the ref layer: {line}')
+                continue
+            var, _, ident = at['label'].rpartition('-')
+            if int(ident) != int(u):
+                raise AssertionError(line)
+            nodes.append((int(u), cur_layer))
+            labels.append((int(u), None if var == 'True' else vid(var)))
+    return _graph_value(nodes, edges, refs, labels)
+
+
 def fmt_arg(a):
     if a is None:
         return 'none'
@@ -220,15 +282,172 @@ def _dict(kind, d):
 
 class Impl:
     """Executes operations on real managers; one method per operation name,
-    with the same argument conventions as the driver's text format."""
+    with the same argument conventions as the driver's text format.
+    Manager ids that are strings 'a<k>' denote dd.autoref managers."""
 
     def __init__(self):
         self.mgr = dict()
+        self.amgr = dict()      # 'a0' -> dd.autoref.BDD
+        self.handles = dict()   # 'a0' -> {hid: Function}
+        self.next_hid = dict()
 
     def close(self):
         for b in self.mgr.values():
             b._ref = {1: 0}
         self.mgr = dict()
+        for k, hs in self.handles.items():
+            for f in hs.values():
+                f.node = None          # disarm __del__
+        self.handles = dict()
+        for a in self.amgr.values():
+            a._bdd._ref = {1: 0}
+        self.amgr = dict()
+
+    # ---- dd.autoref ----
+    def _h(self, m, f):
+        """register a Function returned to the user; an object that is
+        already a handle keeps its id"""
+        if f is None:
+            return None
+        for hid, g in self.handles[m].items():
+            if g is f:
+                return hid
+        hid = self.next_hid[m]
+        self.next_hid[m] = hid + 1
+        self.handles[m][hid] = f
+        return hid
+
+    def arun(self, m, name, *args):
+        import dd.autoref as _a
+        H = self.handles.get(m)
+        a = self.amgr.get(m)
+
+        def F(h):
+            return None if h is None else H[h]
+        if name == 'new':
+            old = self.amgr.get(m)
+            if old is not None:
+                for f in self.handles[m].values():
+                    f.node = None
+                old._bdd._ref = {1: 0}
+            self.amgr[m] = _a.BDD({vname(k): l for k, l in args[0].items()})
+            self.handles[m] = dict()
+            self.next_hid[m] = 0
+            return None
+        if name == 'declare':
+            return a.declare(*[vname(v) for v in args[0]])
+        if name == 'var':
+            return self._h(m, a.var(vname(args[0])))
+        if name == 'true':
+            return self._h(m, a.true)
+        if name == 'false':
+            return self._h(m, a.false)
+        if name == 'apply':
+            o, u, v, w = args
+            return self._h(m, a.apply(o, F(u), F(v), F(w)))
+        if name == 'ite':
+            return self._h(m, a.ite(*[F(x) for x in args]))
+        if name == 'let_bool':
+            return self._h(m, a.let({vname(k): v for k, v in args[0].items()}, F(args[1])))
+        if name == 'let_ref':
+            return self._h(m, a.let({vname(k): F(v) for k, v in args[0].items()}, F(args[1])))
+        if name == 'let_name':
+            return self._h(m, a.let({vname(k): vname(v) for k, v in args[0].items()}, F(args[1])))
+        if name == 'quantify':
+            return self._h(m, a.quantify(F(args[0]), [vname(k) for k in args[1]], args[2]))
+        if name == 'cube':
+            return self._h(m, a.cube({vname(k): v for k, v in args[0].items()}))
+        if name == 'find_or_add':
+            return self._h(m, a.find_or_add(vname(args[0]), F(args[1]), F(args[2])))
+        if name == 'support':
+            return {vid(x) for x in a.support(F(args[0]))}
+        if name == 'count':
+            return a.count(F(args[0]), args[1])
+        if name in ('image', 'preimage'):
+            t, s, rn, q, fa = args
+            fn = _a.image if name == 'image' else _a.preimage
+            return self._h(m, fn(F(t), F(s), {vname(k): vname(v) for k, v in rn.items()},
+                                 {vname(k) for k in q}, fa))
+        if name == 'fapply':
+            o, u, v = args
+            f = F(u)
+            if o == 'not':
+                r = ~f
+            elif o == 'and':
+                r = f & F(v)
+            elif o == 'or':
+                r = f | F(v)
+            elif o == 'implies':
+                r = f.implies(F(v))
+            elif o == 'equiv':
+                r = f.equiv(F(v))
+            else:
+                r = f._apply(o, F(v))
+            return self._h(m, r)
+        if name == 'eq':
+            return F(args[0]) == F(args[1])
+        if name == 'ne':
+            return F(args[0]) != F(args[1])
+        if name == 'le':
+            return F(args[0]) <= F(args[1])
+        if name == 'lt':
+            return F(args[0]) < F(args[1])
+        if name == 'low':
+            return self._h(m, F(args[0]).low)
+        if name == 'high':
+            return self._h(m, F(args[0]).high)
+        if name == 'succ':
+            i, v, w = a.succ(F(args[0]))
+            return [i, self._h(m, v), self._h(m, w)]
+        if name == 'level':
+            return F(args[0]).level
+        if name == 'varof':
+            v = F(args[0]).var
+            return None if v is None else vid(v)
+        if name == 'ref':
+            return F(args[0]).ref
+        if name == 'negated':
+            return F(args[0]).negated
+        if name == 'len':
+            return len(F(args[0]))
+        if name == 'int':
+            return int(F(args[0]))
+        if name == 'drop':
+            f = H.pop(args[0])
+            # the only reference to the object: dies here
+            del f
+            return None
+        if name == 'gc':
+            return a.collect_garbage()
+        if name == 'reorder':
+            o = args[0]
+            return _a.reorder(a, None if o is None else {vname(k): l for k, l in o.items()})
+        if name == 'configure':
+            if args[0] is None:
+                return a.configure()['reordering']
+            return a.configure(reordering=args[0])['reordering']
+        if name == 'set_last_len':
+            a._bdd._last_len = args[0]
+            return None
+        if name == 'set_trig':
+            a._bdd._verif_trig = args[0]
+            return None
+        if name == 'copy':
+            src, u = args
+            srcm = 'a%d' % src
+            f = self.handles[srcm][u]
+            return self._h(m, self.amgr[srcm].copy(f, a))
+        if name == 'shutdown':
+            try:
+                a._bdd.__del__()
+                return True
+            except AssertionError:
+                return False
+        raise KeyError(name)
+
+    def adigest(self, m):
+        hs = ';'.join(f'{h}:{f.node}' for h, f in sorted(self.handles[m].items()))
+        return digest(self.amgr[m]._bdd) + ' handles={' + hs + '}'
 
     # each op_<name>(b, *args) returns a Python value
     def op_new(self, m, levels):
@@ -372,6 +591,28 @@ class Impl:
     def op_contains(self, b, u):
         return u in b
 
+    def op_to_nx(self, b, roots):
+        g = _b.to_nx(b, set(roots))
+        nodes = sorted({(u, d['level']) for u, d in g.nodes(data=True)})
+        edges = sorted({(u, v, d['value'], d['complement']) for u, v, d in g.edges(data=True)})
+        return _graph_value(nodes, edges, [], [])
+
+    def op_to_dot(self, b, roots):
+        import os
+        import tempfile
+        d = tempfile.mkdtemp(prefix='ddverif')
+        fn = os.path.join(d, 'g.dot')
+        try:
+            b.dump(fn, roots=roots, filetype='dot')
+            text = open(fn).read()
+        finally:
+            try:
+                os.remove(fn)
+            except OSError:
+                pass
+            os.rmdir(d)
+        return parse_dot(text)
+
     def op_shutdown(self, b):
         try:
             b.__del__()
@@ -384,12 +625,15 @@ class Impl:
         _Rec.events = []
         _Rec.names_slot = None
         try:
-            f = getattr(self, 'op_' + name)
             r = None
             try:
-                if name == 'new':
+                if isinstance(m, str):
+                    r = self.arun(m, name, *args)
+                elif name == 'new':
+                    f = getattr(self, 'op_' + name)
                     r = f(m, *args)
                 else:
+                    f = getattr(self, 'op_' + name)
                     r = f(self.mgr[m], *args)
                 res = 'ok:' + show_value(r)
             except _b._NeedsReordering:
@@ -406,4 +650,6 @@ class Impl:
         return tape, res, r
 
     def digest(self, m):
+        if isinstance(m, str):
+            return self.adigest(m)
         return digest(self.mgr[m])
